@@ -4,6 +4,8 @@ CONSTANTS
   Relays = {1}
   NoMc = {}
   Types = {1}
+  Lens = {1}
+  FragLen = 1
   MaxWrites = 1
   MaxLoss = 0
   Concurrent = FALSE
